@@ -51,3 +51,17 @@ Theorem gen_optional_enum_rejected s slot f :
 Proof.
   intros Ht Hl Ho Ha Hc. unfold gen_field_encode, field_info. rewrite Ht, Hl, Ho, Ha, Hc. cbn. reflexivity.
 Qed.
+
+(* a oneof member is never written by the writer that omits an empty message (PresentMessage): a by-value message
+   member goes through AlwaysMessage, so that the selection survives an empty member (the repair of D14) *)
+Theorem gen_oneof_never_present s slot f sl sl2 num idx :
+  gen_field_encode s slot f <> GOk (EOneof sl (EMsgPresent sl2 num idx)).
+Proof.
+  unfold gen_field_encode. destruct (i_kind (field_info s f)); try discriminate;
+    try (destruct (i_oneof (field_info s f)); discriminate).
+  - destruct (i_repeated (field_info s f) && i_pointer (field_info s f)); [discriminate|].
+    destruct (i_oneof (field_info s f)); discriminate.
+  - destruct (i_oneof (field_info s f)); destruct (i_pointer (field_info s f)), (i_repeated (field_info s f)); discriminate.
+  - destruct (i_pointer (field_info s f)); [discriminate|].
+    destruct (i_oneof (field_info s f)); destruct (i_repeated (field_info s f)); discriminate.
+Qed.
